@@ -54,6 +54,12 @@ def gen_graph(rng: random.Random, n: int, shape: str) -> tuple[dict[str, str], d
             for k, j in enumerate(deps[i]):
                 want = rt[j] if (i + k) % 3 else rng.choice(T)   # some uses are wrong from the start
                 lines.append(f"u{i}_{k}: {want} = m{j}.f{j}()\n")
+                # interface of THIS module that is inferred from a dependency: editing m{j} changes m{i}'s interface
+                # although m{i}'s source is untouched (transitive interface propagation)
+                lines.append(f"v{i}_{k} = m{j}.f{j}()\n")
+                if k == 0 and j in deps and deps[j]:
+                    jj = deps[j][0]
+                    lines.append(f"t{i}: {rt[jj]} = m{j}.v{j}_0\n")
                 lines.append(f"class S{i}_{k}(m{j}.C{j}):\n    attr = {V[want]}\n")
             for (b, a) in cycles:
                 if b == i:
